@@ -11,3 +11,4 @@ import MicroHttp.Props.Tables
 #print axioms MicroHttp.C04.body_survives_lower_limit
 #print axioms MicroHttp.C04.setLimit_only_limit
 #print axioms MicroHttp.Tables.no_shared_state
+#print axioms MicroHttp.Tables.no_interior_mutability
